@@ -7,7 +7,10 @@ from checks.evalcheck import run_family
 
 def run(ctx):
     run_family(ctx, "c03", 20000)
+    # random deeper programs over every operator, builtin and value kind, recorded from the real evaluator and validated by Trace_Expr
+    tr = ctx.record("prog-random", "expr", ["-mode", "prog", "-n", 120000 if ctx.thorough else 6000, "-seed", ctx.seed * 100 + 3])
+    ctx.validate("prog-random-validate", "trace/Trace_Expr.tla", "trace/Trace_Expr.cfg", tr, "expr", shards=14 if ctx.thorough else 2)
     return ctx.finish(
         rule="every program of the family evaluated by the real evaluator under recover and a watchdog; compared: value XOR error "
-             "(nil value with an error), pinned values/errors where other properties pin them; non-trivial = pinned cases",
+             "(nil value with an error), pinned values/errors where other properties pin them; plus seeded random programs (depth <= 4, all operators / builtins / value kinds) validated by the trace specification; non-trivial = pinned cases",
         assumptions=["== on containers of different Go types is unpinned; out-of-range string positions: error or clamped value"])
